@@ -39,6 +39,8 @@ pub(crate) const MAXSLOT: usize = 64;
 /// list id: no heap object, no symbolic offsets -- a symbolic slot index costs
 /// shifts, not byte-array updates, in the solver.
 pub(crate) struct St {
+    /// index of this list in the static table
+    pub(crate) id: usize,
     /// owners: the list handle + every cloned child waker
     pub(crate) strong: usize,
     pub(crate) live: bool,
@@ -56,6 +58,7 @@ pub(crate) struct St {
 }
 
 const ST0: St = St {
+    id: 0,
     strong: 0,
     live: false,
     task: None,
@@ -78,6 +81,19 @@ pub(crate) fn set_two_phase(on: bool) {
 fn two_phase() -> bool {
     unsafe { TWO_PHASE }
 }
+/// harnesses with more than QMAX queued slots (and fully concrete state) switch
+/// the FIFO to a ring buffer; concrete flag, pruned by symex otherwise
+static mut BIG_QUEUE: bool = false;
+/// the ring buffers live outside `St`, so that they cost nothing when unused
+static mut QX: [[u8; MAXSLOT]; MAXL] = [[0; MAXSLOT]; MAXL];
+static mut QX_HEAD: [usize; MAXL] = [0; MAXL];
+
+pub(crate) fn set_big_queue(on: bool) {
+    unsafe { BIG_QUEUE = on }
+}
+fn big_queue() -> bool {
+    unsafe { BIG_QUEUE }
+}
 /// `&TAGS[i]` is the data pointer of the waker of slot i (of any list; the
 /// list is identified by the vtable)
 static TAGS: [u8; MAXSLOT] = [0; MAXSLOT];
@@ -95,6 +111,8 @@ pub(crate) fn model_reset() {
         }
         NEXT_ID = 0;
         TWO_PHASE = false;
+        BIG_QUEUE = false;
+        QX_HEAD = [0; MAXL];
     }
 }
 
@@ -116,6 +134,9 @@ impl St {
         (self.flags >> i) & 1 == 1
     }
     pub(crate) fn q_at(&self, k: usize) -> usize {
+        if big_queue() {
+            return unsafe { QX[self.id][(QX_HEAD[self.id] + k) % MAXSLOT] } as usize;
+        }
         ((self.q >> (8 * k)) & 0xff) as usize
     }
     pub(crate) fn inflight_at(&self, k: usize) -> bool {
@@ -144,6 +165,12 @@ impl St {
 
     fn enqueue(&mut self, i: usize, inflight: bool) {
         let n = self.qlen;
+        if big_queue() {
+            assert!(n < MAXSLOT && i < MAXSLOT && !inflight, "waker_model: queue/slot limit of the model exceeded");
+            unsafe { QX[self.id][(QX_HEAD[self.id] + n) % MAXSLOT] = i as u8 };
+            self.qlen = n + 1;
+            return;
+        }
         assert!(n < QMAX && i < MAXSLOT, "waker_model: queue/slot limit of the model exceeded");
         self.q |= (i as u64) << (8 * n);
         if inflight {
@@ -314,6 +341,7 @@ impl WakerList {
         assert!(id < MAXL && cap <= MAXSLOT, "waker_model: list/slot limit of the model exceeded");
         let s = st(id);
         *s = ST0;
+        s.id = id;
         s.strong = 1;
         s.live = true;
         s.cap = cap;
@@ -375,6 +403,9 @@ impl WakerList {
             ReadySlot::Inconsistent
         } else {
             let e0 = s.q_at(0);
+            if big_queue() {
+                unsafe { QX_HEAD[s.id] = (QX_HEAD[s.id] + 1) % MAXSLOT };
+            }
             s.q >>= 8;
             s.inflight = fl >> 1;
             s.qlen = n - 1;
